@@ -34,6 +34,7 @@ RULE += (" Case-sensitive field-bound values (cased, contains|cased) with placeh
 RULE += (" Regular-expression flag modifiers are placed before and after expand.")
 RULE += (" A quarter of the cases uses a backend without regular-expression escaping (re_escape empty, escape character not escaped).")
 RULE += (" One case in four or so puts a value next to its look-alike in one rule: the same text with a placeholder written as escaped literal percent signs (equal plain rendering, different parts).")
+RULE += (" expand followed by a UTF-16 encoder (wide, utf16le, utf16be, utf16): replaced or refused, never vanished, never as text (fixed cases).")
 ASSUMPTIONS = [
     "vf/ref/modifiers.py defines which %name% sequences are placeholders",
     "variable values inserted into regular expressions are alphanumeric (insertion of regex "
@@ -231,7 +232,62 @@ def literal_texts(case):
     return res
 
 
+ENCODERS = ["wide", "utf16le", "utf16be", "utf16"]
+
+
+def encoded_cases():
+    for enc in ENCODERS:
+        for value in ("ab%a%", "%a%", "x%a%y%b%"):
+            for handled in (False, True):
+                yield {"kind": "encoded", "enc": enc, "value": value, "handled": handled}
+
+
+def check_encoded_case(case: dict) -> Outcome:
+    """expand followed by a UTF-16 encoder: the encoders work part by part and keep placeholders, so the usual alternative
+    holds - every configured replacement shows up in the query (encoded or not: not specified) or the conversion fails
+    with a Sigma error naming the placeholder; the placeholder never vanishes silently and never appears as text."""
+    from sigma.exceptions import SigmaError
+    from sigma.processing.pipeline import ProcessingPipeline
+    from sigma.rule import SigmaRule
+
+    out = Outcome()
+    out.nontrivial = True
+    out.label("expand-then-encoder", "enc:" + case["enc"])
+    names = [n for n in ("a", "b") if "%" + n + "%" in case["value"]]
+    vars_ = {"a": ["v1", "w2"], "b": ["q9"]}
+    pipeline = ProcessingPipeline.from_dict({"vars": vars_, "transformations": [{"type": "value_placeholders"}]}) if case["handled"] else None
+    doc = {"title": "t", "logsource": {"category": "c"}, "detection": {"sel": {"f|expand|" + case["enc"]: case["value"]}, "condition": "sel"}}
+    try:
+        rule = SigmaRule.from_dict(doc)
+    except SigmaError:
+        out.skipped = "chain rejected at load"
+        return out
+    try:
+        q = make_backend(CFG, pipeline).convert_rule(rule)[0]
+    except SigmaError as e:
+        if not case["handled"] and not any(n in str(e) for n in names):
+            out.fail("C17:encoded:error-does-not-name-placeholder", f"{doc['detection']['sel']}: {type(e).__name__}: {e}")
+        return out
+    except NotImplementedError:
+        out.skipped = "unsupported by backend"
+        return out
+    for n in names:
+        if "%" + n + "%" in q.replace("\x00", "").replace("\\x00", ""):
+            out.fail("C17:encoded:raw-placeholder-in-query", f"{doc['detection']['sel']} handled={case['handled']}: query {q!r}")
+            return out
+    if not case["handled"]:
+        out.fail("C17:encoded:placeholder-vanished", f"{doc['detection']['sel']} without a handling item converts to {q!r}: neither an error nor a replacement")
+        return out
+    flat = q.replace("\x00", "")
+    missing = [v for n in names for v in vars_[n] if v not in flat]
+    if missing:
+        out.fail("C17:encoded:replacement-missing", f"{doc['detection']['sel']}: query {q!r} lacks the replacements {missing}")
+    return out
+
+
 def check_case(case: dict) -> Outcome:
+    if case.get("kind") == "encoded":
+        return check_encoded_case(case)
     from sigma.exceptions import SigmaError
     from sigma.rule import SigmaRule
 
@@ -363,4 +419,7 @@ def cases(draw):
 
 
 def run(ctx) -> None:
+    for i, c in enumerate(encoded_cases()):
+        if i % ctx.nshards == ctx.shard:
+            ctx.do(c)
     ctx.hyp(cases(), 2500 if ctx.tier == "quick" else 25000)
